@@ -200,8 +200,7 @@ def run_job(job):
                 return res
             info = replay.replay(cs, scn, graph, rec, modes=job.get("modes", replay.DEFAULT_MODES),
                                  foreign=job.get("foreign", True), max_states=job.get("max_states"),
-                                 extras=job.get("extras", True), readable=not corpus.names_clash(cs),
-                         record_draws=job.get("record_draws", False))
+                                 extras=job.get("extras", True), readable=not corpus.names_clash(cs))
             res["edges_replayed"] = info["edges"]
             res["graph_states"] = info["states"]
             res["spec_gates"] = {"%s/%s/%s" % k: v for k, v in info["gates"].items()}
